@@ -2797,4 +2797,130 @@ theorem pebbling_skolem (a : Asg) (gid : ℤ) :
 
 end Pebbling
 
+
+/-! # Seventh batch: sequence algebra for the writer proofs (output traces) -/
+
+/-- `capp(capp(a, b), c) == capp(a, capp(b, c))` -/
+theorem append_assoc (a b c : CSeq) : capp (capp a b) c = capp a (capp b c) := by
+  simp [capp, List.append_assoc]
+
+/-- an event is an `ISeq`; the comment event -/
+def evcomment : ISeq := []
+/-- a formatted piece: template id and two integer arguments -/
+def ev3 (tid x y : ℤ) : ISeq := [tid, x, y]
+/-- the trace without its comment events -/
+def dropc (tr : CSeq) : CSeq := tr.filter (fun e => decide (e ≠ evcomment))
+/-- z3 `oget`: the `t`-th constraint (an arbitrary default outside the range) -/
+def oget (o : OSeq) (t : ℤ) : Con := o.getD t.toNat ⟨[], "", 0⟩
+
+/-- `ev3(tid, x, y) != evcomment` -/
+theorem ev3_ne_comment (tid x y : ℤ) : ev3 tid x y ≠ evcomment := by
+  simp [ev3, evcomment]
+
+/-- `tr == cnil -> dropc(tr) == cnil` -/
+theorem dropc_nil (tr : CSeq) : tr = cnil → dropc tr = cnil := by
+  rintro rfl; rfl
+
+/-- `e == evcomment -> dropc(csnoc(t0, e)) == dropc(t0)` -/
+theorem dropc_snoc_comment (t0 : CSeq) (e : ISeq) : e = evcomment → dropc (csnoc t0 e) = dropc t0 := by
+  rintro rfl; simp [dropc, csnoc, List.filter_append]
+
+/-- `e != evcomment -> dropc(csnoc(t0, e)) == csnoc(dropc(t0), e)` -/
+theorem dropc_snoc_event (t0 : CSeq) (e : ISeq) :
+    e ≠ evcomment → dropc (csnoc t0 e) = csnoc (dropc t0) e := by
+  intro h; simp [dropc, csnoc, List.filter_append, h]
+
+section Traces
+
+variable (levent : ℤ → ℤ → ISeq) (tevent : ℤ → ℤ → ℤ → ISeq) (cevent : ℤ → ℤ → ℤ → ISeq)
+
+/-- events of the first `j` literals of a clause -/
+def dlits (w : ℤ) (c : ISeq) (j : ℤ) : CSeq := (c.take j.toNat).map (levent w)
+/-- events of the first `t` clauses, each closed by `ev3(te, 0, 0)` -/
+def dclauses (w te : ℤ) (C : CSeq) (t : ℤ) : CSeq :=
+  ((C.take t.toNat).map (fun ck => dlits levent w ck (ilen ck) ++ [ev3 te 0 0])).flatten
+/-- events of the first `j` terms of a constraint -/
+def dterms (w : ℤ) (T : TSeq) (j : ℤ) : CSeq := (T.take j.toNat).map (fun p => tevent w p.1 p.2)
+/-- events of the first `t` constraints, each closed by `cevent(w, 1 if op is >= else 0, value)` -/
+def dcons (w : ℤ) (O : OSeq) (t : ℤ) : CSeq :=
+  ((O.take t.toNat).map (fun ck => dterms tevent w ck.terms (tlen ck.terms) ++
+      [cevent w (if ck.op = ">=" then 1 else 0) ck.value])).flatten
+
+/-- `j == 0 -> dlits(w, c, j) == cnil` -/
+theorem dlits_zero (w : ℤ) (c : ISeq) (j : ℤ) : j = 0 → dlits levent w c j = cnil := by
+  rintro rfl; simp [dlits, cnil]
+
+/-- `And(0 <= j, j < ilen(c)) -> dlits(w, c, j + 1) == csnoc(dlits(w, c, j), levent(w, iget(c, j)))` -/
+theorem dlits_succ (w : ℤ) (c : ISeq) (j : ℤ) : (0 ≤ j ∧ j < ilen c) →
+    dlits levent w c (j + 1) = csnoc (dlits levent w c j) (levent w (iget c j)) := by
+  rintro ⟨h0, h1⟩
+  unfold ilen at h1
+  have hlt : j.toNat < c.length := by omega
+  have hk : (j + 1).toNat = j.toNat + 1 := by omega
+  unfold dlits csnoc iget
+  rw [hk, List.take_add_one, List.getElem?_eq_getElem hlt, List.map_append,
+    List.getD_eq_getElem?_getD, List.getElem?_eq_getElem hlt]
+  rfl
+
+/-- `j == 0 -> dterms(w, T, j) == cnil` -/
+theorem dterms_zero (w : ℤ) (T : TSeq) (j : ℤ) : j = 0 → dterms tevent w T j = cnil := by
+  rintro rfl; simp [dterms, cnil]
+
+/-- `And(0 <= j, j < tlen(T)) -> dterms(w, T, j + 1) == csnoc(dterms(w, T, j), tevent(w, tcoef(T, j), tlit(T, j)))` -/
+theorem dterms_succ (w : ℤ) (T : TSeq) (j : ℤ) : (0 ≤ j ∧ j < tlen T) →
+    dterms tevent w T (j + 1) = csnoc (dterms tevent w T j) (tevent w (tcoef T j) (tlit T j)) := by
+  rintro ⟨h0, h1⟩
+  have hg := tget_of_lt T j h0 h1
+  unfold tlen at h1
+  have hlt : j.toNat < T.length := by omega
+  have hk : (j + 1).toNat = j.toNat + 1 := by omega
+  unfold dterms csnoc tcoef tlit
+  rw [hg, hk, List.take_add_one, List.getElem?_eq_getElem hlt, List.map_append]
+  rfl
+
+/-- `t == 0 -> dcons(w, O, t) == cnil` -/
+theorem dcons_zero (w : ℤ) (O : OSeq) (t : ℤ) : t = 0 → dcons tevent cevent w O t = cnil := by
+  rintro rfl; simp [dcons, cnil]
+
+/-- `And(0 <= t, t < olen(O)) -> dcons(w, O, t + 1) == csnoc(capp(dcons(w, O, t), dterms(w, Con.terms(ck),
+    tlen(Con.terms(ck)))), cevent(w, If(Con.op(ck) == '>=', 1, 0), Con.value(ck)))`, `ck = oget(O, t)` -/
+theorem dcons_succ (w : ℤ) (O : OSeq) (t : ℤ) : (0 ≤ t ∧ t < olen O) →
+    dcons tevent cevent w O (t + 1) =
+      csnoc (capp (dcons tevent cevent w O t)
+                  (dterms tevent w (oget O t).terms (tlen (oget O t).terms)))
+            (cevent w (if (oget O t).op = ">=" then 1 else 0) (oget O t).value) := by
+  rintro ⟨h0, h1⟩
+  unfold olen at h1
+  have hlt : t.toNat < O.length := by omega
+  have hk : (t + 1).toNat = t.toNat + 1 := by omega
+  have hget : oget O t = O[t.toNat] := by
+    unfold oget; rw [List.getD_eq_getElem?_getD, List.getElem?_eq_getElem hlt]; rfl
+  rw [hget]
+  unfold dcons csnoc capp
+  rw [hk, List.take_add_one, List.getElem?_eq_getElem hlt, List.map_append, List.flatten_append]
+  simp [List.append_assoc]
+
+/-- `t == 0 -> dclauses(w, te, C, t) == cnil` -/
+theorem dclauses_zero (w te : ℤ) (C : CSeq) (t : ℤ) : t = 0 → dclauses levent w te C t = cnil := by
+  rintro rfl; simp [dclauses, cnil]
+
+/-- `And(0 <= t, t < clen(C)) -> dclauses(w, te, C, t + 1) ==
+    csnoc(capp(dclauses(w, te, C, t), dlits(w, ck, ilen(ck))), ev3(te, 0, 0))`, `ck = cget(C, t)` -/
+theorem dclauses_succ (w te : ℤ) (C : CSeq) (t : ℤ) : (0 ≤ t ∧ t < clen C) →
+    dclauses levent w te C (t + 1) =
+      csnoc (capp (dclauses levent w te C t) (dlits levent w (cget C t) (ilen (cget C t))))
+            (ev3 te 0 0) := by
+  rintro ⟨h0, h1⟩
+  unfold clen at h1
+  have hlt : t.toNat < C.length := by omega
+  have hk : (t + 1).toNat = t.toNat + 1 := by omega
+  have hget : cget C t = C[t.toNat] := by
+    unfold cget; rw [List.getD_eq_getElem?_getD, List.getElem?_eq_getElem hlt]; rfl
+  rw [hget]
+  unfold dclauses csnoc capp
+  rw [hk, List.take_add_one, List.getElem?_eq_getElem hlt, List.map_append, List.flatten_append]
+  simp [List.append_assoc]
+
+end Traces
+
 end CnfSem
